@@ -59,6 +59,7 @@ func checkC12(r *core.Run) {
 	c12Admit(r, p)
 	c12Closure(r, p)
 	c12OutputsOfSameTx(r, p, "R-C12-owner")
+	c12MemInputCounters(r, p, "R-C12-sort")
 	c12PkgCache(r, p)
 	// a transaction is unlinked from the pool (its inputs released, its map entry removed) before the fee
 	// packages are updated: the package update rebuilds membership by walking the spent-outputs map, and would
@@ -1051,4 +1052,82 @@ func c12OutputsOfSameTx(r *core.Run, p *core.Program, rule string) {
 	}
 	sort.Strings(bad)
 	r.Check(len(bad) == 0 && n >= 4, rule, "children-by-every-output", "-", fmt.Sprintf("%d loops build (id, output index) keys; each runs over the outputs of the transaction whose id is used", n), strings.Join(bad, "; "))
+}
+
+// c12MemInputCounters: MemInputCnt is the number of a transaction's inputs that spend outputs of pooled
+// transactions (the true entries of MemInputs).  A local counter that is compared with it - to stop a scan
+// over the inputs early, or to cross-check it - has to count exactly those inputs: each of its increments
+// is control-dependent on MemInputs[i] being true.  (Counting every input ends the scan after the first
+// MemInputCnt inputs and misses pooled parents referenced by later ones: a child is listed before its parent.)
+func c12MemInputCounters(r *core.Run, p *core.Program, rule string) {
+	n := 0
+	var bad []string
+	for _, fn := range p.ModuleFuncs() {
+		if !strings.Contains(core.FuncName(fn), "client/txpool.") {
+			continue
+		}
+		an.Instrs(fn, func(i ssa.Instruction) {
+			bo, ok := i.(*ssa.BinOp)
+			if !ok || (bo.Op != token.EQL && bo.Op != token.NEQ && bo.Op != token.GEQ && bo.Op != token.LSS) {
+				return
+			}
+			var cnt ssa.Value
+			if strings.HasSuffix(an.Expr(bo.Y), ".MemInputCnt") {
+				cnt = bo.X
+			} else if strings.HasSuffix(an.Expr(bo.X), ".MemInputCnt") {
+				cnt = bo.Y
+			}
+			if cnt == nil {
+				return
+			}
+			// the increments that feed the counter
+			var incs []*ssa.BinOp
+			seen := map[ssa.Value]bool{}
+			var walk func(v ssa.Value)
+			walk = func(v ssa.Value) {
+				if seen[v] {
+					return
+				}
+				seen[v] = true
+				switch x := v.(type) {
+				case *ssa.Phi:
+					for _, e := range x.Edges {
+						walk(e)
+					}
+				case *ssa.BinOp:
+					if x.Op == token.ADD && an.Expr(x.Y) == "1" {
+						incs = append(incs, x)
+						walk(x.X)
+					}
+				case *ssa.UnOp: // counter kept in a captured or spilled variable
+					if al, ok := x.X.(*ssa.Alloc); ok && x.Op == token.MUL {
+						for _, ref := range *al.Referrers() {
+							if st, ok := ref.(*ssa.Store); ok && st.Addr == ssa.Value(al) {
+								walk(st.Val)
+							}
+						}
+					}
+				}
+			}
+			walk(cnt)
+			if len(incs) == 0 {
+				return
+			}
+			n++
+			for _, inc := range incs {
+				okDep := false
+				for _, dc := range an.DomConds(inc.Block()) {
+					if strings.Contains(dc.Cond, ".MemInputs[") && !strings.Contains(dc.Cond, "==") && dc.True {
+						okDep = true
+					}
+				}
+				if !okDep {
+					bad = append(bad, fmt.Sprintf("the counter compared with MemInputCnt at %s is also incremented at %s for inputs that are not flagged in MemInputs", p.Pos(bo.Pos()), p.Pos(inc.Pos())))
+				}
+			}
+		})
+	}
+	sort.Strings(bad)
+	bad = dedupStrings(bad)
+	r.Check(len(bad) == 0 && n >= 1, rule, "pooled-input-counters", "-", fmt.Sprintf("%d local counter(s) compared with MemInputCnt; every increment is under MemInputs[i]", n), strings.Join(bad, "; "))
 }
